@@ -5,10 +5,11 @@ operator, indexing, calls, ranges, assignment and compound assignment, with oper
 kind (so the error class and message are part of the expectation) and t(k, v) probes that make
 evaluation order and evaluate-once visible; nested if / else-if / else, while, for, blocks, break,
 continue, return with trace prints; an exhaustive small-scope index sweep (every sequence kind x every
-integer / range index from below -len to above len, non-integral, infinite and ill-typed indexes, index stores)."""
+integer / range index from below -len to above len, non-integral, infinite and ill-typed indexes, index stores);
+failing statements of every form followed by probes of everything they might have touched (feat_residue)."""
 from .. import common
 from ..common import Check
-from ..gen import feat_index, progs
+from ..gen import feat_index, feat_residue, progs
 from . import modelcheck
 
 
@@ -45,6 +46,10 @@ def run(tier):
 
     for name, src in feat_index.programs(ck.rng.fork("index"), sample=6000 if quick else None):
         plist.append({"name": name, "steps": [("snip", src)], "mods": []})
+
+    r4 = ck.rng.fork("residue")
+    for i in range(400 if quick else 10000):
+        plist.append({"name": "residue/%d" % i, "steps": [("snip", feat_residue.program(r4.fork(str(i))))], "mods": []})
 
     def seen(p, m, res):
         v = m["view"][0]
